@@ -230,7 +230,7 @@ class Ev:
     MAX_UNROLL = 16
 
     def __init__(self, func, mod: ModuleCtx | None = None, *, call_hook=None, attr_hook=None,
-                 params: dict | None = None, unroll=True, self_name=None, ctypes=None):
+                 params: dict | None = None, unroll=True, self_name=None, ctypes=None, opaque=()):
         self.func = func
         self.mod = mod or ModuleCtx(None)
         self.call_hook = call_hook
@@ -245,6 +245,9 @@ class Ev:
         self.all_loops: list[LoopInfo] = []
         self.returns: list[Event] = []
         self.ctypes = ctypes or {}
+        self.opaque = set(opaque)          # local names kept as atoms instead of being inlined
+        self.defs: dict = {}               # ('local', name, version) -> defining value
+        self._versions: dict = {}
         if isinstance(func, (ast.FunctionDef, ast.AsyncFunctionDef)):
             a = func.args
             names = [x.arg for x in a.posonlyargs + a.args + a.kwonlyargs]
@@ -349,6 +352,14 @@ class Ev:
             self.assign(st.target, self.ev(st.value), st)
 
     def assign(self, t, v: P, st):
+        if isinstance(t, ast.Name) and t.id in self.opaque:
+            ver = self._versions.get(t.id, 0)
+            self._versions[t.id] = ver + 1
+            atom = ("local", t.id, ver)
+            self.defs[atom] = v
+            self.env[t.id] = P.atom(atom)
+            self.emit("assign", st, target=P.name(t.id), value=v, name=t.id, extra={"local": atom})
+            return
         if isinstance(t, ast.Name):
             if t.id in self.mutated and not _is_obj(v) and t.id not in self.param_names:
                 # a local container that is modified in place keeps its identity instead of being inlined
